@@ -17,6 +17,8 @@
 -/
 import BufrModel.Lemmas.Query
 import BufrModel.Lemmas.QueryEval
+import BufrModel.Lemmas.QueryShape
+import BufrModel.Props.C09
 namespace Bufr
 open Bufr.Query Bufr.PathLang Bufr.C16
 
@@ -286,6 +288,27 @@ theorem C16_query_eq_eval (m : QMsg) (p : Path) (nested : List (List NJ))
     generalize mapIdx _ sel = x
     cases x <;> rfl
 
+/-- the wiring pass establishes the shape condition of `C16_query_eq_eval*`: in every tree `TemplateData.wire`
+    builds (attachments through bitmap links included), every replication node holds `n_repeats * n_members`
+    member nodes (`C09_replication_chunks`), `n_repeats` being the number the renderer reads — whatever the flat
+    lists are -/
+theorem C16_wire_shape (t : List Desc) (o : SubsetOut) (tree : List Node) (h : wire t o = .ok tree) :
+    repsOKList o tree = true := by
+  obtain ⟨_, _, hs, _⟩ := wire_shape t o tree h
+  exact hs
+
+/-- tree order = flat order, for the tree every reader sees (`C09_wire_indices_consecutive` carried through the
+    attachment of the bitmap-linked attributes): the flat indices of the members, factors and associated fields
+    of the wired tree are `0, 1, ..., k-1`, `k` the number of indices the pass consumed -/
+theorem C16_wire_indices_consecutive (t : List Desc) (o : SubsetOut) (tree : List Node) (h : wire t o = .ok tree) :
+    ∃ w, wireRaw t o = .ok w ∧ idxList tree = List.range w.st.next := by
+  obtain ⟨w, hw, _, hi⟩ := wire_shape t o tree h
+  exact ⟨w, hw, by rw [hi]; exact C09_wire_indices_consecutive t o w hw⟩
+
+/-- uncompressed data: the message handed to `query` satisfies the shape hypothesis of `C16_query_eq_eval` -/
+theorem C16_mkMsg_shape (t : List Desc) (outs : List SubsetOut) (m : QMsg) (h : mkMsg t false outs = .ok m) :
+    Spec.shapeOK m = true := mkMsg_shape t outs m h
+
 /-- the message a decoder hands over for compressed data: every subset shares the tree wired from subset 0
     (the hypothesis `ht` of the theorems on compressed data) -/
 theorem C16_compressed_trees_shared (t : List Desc) (outs : List SubsetOut) (m : QMsg)
@@ -521,6 +544,10 @@ example : (match wire T O1 with
       | .ok js => beqQVs ((Spec.evalComps js p3).toOption.getD []) [.list [.list [.val (.int 5)], .list [.val (.int 6)]]]
       | .error _ => false)
     | .error _ => false) = true := by decide +kernel
+
+/-- `C16_wire_shape`, `C16_wire_indices_consecutive`, `C16_mkMsg_shape`: the wiring succeeds here (7 indices) -/
+example : ((wire T O1).toOption.map idxList) = some [0, 1, 2, 3, 4, 5, 6] := by decide +kernel
+example : (msg).toOption.isSome = true := by decide +kernel
 
 /-- compressed data: two subsets with the same labels and the same replication count sharing one tree -/
 def O1b : SubsetOut := { O1 with vals := [.int 1, .int 2, .int 7, .int 290, .int 8, .int 291, .int 97] }
